@@ -1,5 +1,5 @@
 (* C03 - compiled output is a closed, uniquely addressed op list. *)
-From ES Require Import Base Ssb.Param Ssb.Tables Ssb.Machine Comp.Passes Comp.Closed.
+From ES Require Import Base Ssb.Param Ssb.Tables Ssb.Machine Comp.Passes Comp.Closed Comp.StripShape.
 
 (* For every list of routines of pseudo operations with pairwise distinct op offsets in which plain
    operations do not use reserved names: if strip_last_label ; LabelFinalizer ; OpsLabelJumpToRemover
@@ -16,6 +16,11 @@ Print Assumptions C03_passes.
 Theorem C03_checker_sound : forall P, closed_b P = true -> Closed P.
 Proof. exact closed_b_sound. Qed.
 Print Assumptions C03_checker_sound.
+
+(* after strip_last_label no routine ends in a label, for every input (the loop runs long enough) *)
+Theorem C03_strip_leaves_no_trailing_label : forall rs r, In r (strip rs) -> last_label r = None.
+Proof. exact strip_no_trailing_label. Qed.
+Print Assumptions C03_strip_leaves_no_trailing_label.
 
 (* non-vacuity: a routine with a removed jump, a label at the routine end and a cross-routine jump *)
 Example C03_example :
